@@ -116,6 +116,9 @@ func bulkValues(seed int64, which string) []interface{} {
 		t := make([]time.Time, 1200)
 		for k := range t {
 			t[k] = time.Unix(r.Int63n(1<<33)-1<<32, (1+r.Int63n(998))*1e6)
+			if k%97 == 5 || k == 1100 || k == 1199 {
+				t[k] = time.Time{} // zero timestamps (written as null) inside a list longer than 1024
+			}
 		}
 		out = append(out, &zoo.SlTime{V: t}, &zoo.MpStrTime{M: map[string]time.Time{"a": t[0], "b": t[1]}})
 	case "string":
